@@ -84,7 +84,42 @@ let gen ~(tier : string) ~(seed : int) ~(emit : Sexp.t -> unit) : unit =
     (TApp (h0, TInt), TApp (TLam (false, TType, TVar O), TInt));
     (TPi (false, h0, h1), TPi (false, TInt, TBool));
     (TPi (false, h0, THole (O, S O)), TPi (false, TInt, TBool));           (* one cell, two different demands *)
-    (TIf (h0, h1, h1), TIf (TTrue, TLit (z_of_int 1), TLit (z_of_int 2))) ]
+    (TIf (h0, h1, h1), TIf (TTrue, TLit (z_of_int 1), TLit (z_of_int 2)));
+    (* the occurs check must look through cells solved earlier in the same unification: first ?1 := ?0, then
+       ?0 against a term that mentions ?0 only through ?1 *)
+    (TBin (OSum, h1, h0), TBin (OSum, h0, TNeg h1));
+    (TBin (OSum, h1, h0), TBin (OSum, h0, TBin (OProd, h1, TLit (z_of_int 2))));
+    (TApp (TApp (TBool, h1), h0), TApp (TApp (TBool, h0), TPi (false, h1, TInt)));
+    (TIf (TBool, h1, h0), TIf (TBool, h0, TLam (false, TInt, THole (S O, S O)))) ];
+  (* the same shape with random right-hand sides that mention ?1 somewhere *)
+  let h0 = THole (O, O) and h1 = THole (S O, O) in
+  for _ = 1 to (if tier = "quick" then 400 else 4000) do
+    let t = Gen_terms.random_term r (2 + Rng.int r 8) 0 0 in
+    if C06.is_closed t then begin
+      (* replace one leaf-ish position by ?1 (at its binder depth) *)
+      let n = size t in
+      let target = 1 + Rng.int r (max 1 (n - 1)) in
+      let k = ref (-1) in
+      let rec go (t : term) (d : int) : term =
+        incr k;
+        if !k = target then (k := !k + size t - 1; THole (S O, nat_of_int d))
+        else match t with
+          | THole _ | TType | TInt | TBool | TTrue | TFalse | TLit _ | TVar _ -> t
+          | TLam (im, a, b) -> let a' = go a d in TLam (im, a', go b (d + 1))
+          | TPi (im, a, b) -> let a' = go a d in TPi (im, a', go b (d + 1))
+          | TApp (f, x) -> let f' = go f d in TApp (f', go x d)
+          | TLet (ds, b) -> let d' = d + List.length ds in
+            let ds' = List.map (fun (a, x) -> let a' = go a d' in (a', go x d')) ds in TLet (ds', go b d')
+          | TNeg x -> TNeg (go x d)
+          | TBin (o, x, y) -> let x' = go x d in TBin (o, x', go y d)
+          | TIf (c, x, y) -> let c' = go c d in let x' = go x d in TIf (c', x', go y d) in
+      let u = go t 0 in
+      if u <> h1 then begin
+        emit (case_unify (TIf (TBool, h1, h0)) (TIf (TBool, h0, u)));
+        emit (case_unify (TIf (TBool, h0, u)) (TIf (TBool, h1, h0)))
+      end
+    end
+  done
 
 (* zonk with the final store; None if the store is cyclic *)
 let zonk (store : (int * term option) list) (t : term) : term option =
